@@ -4,6 +4,7 @@ import (
 	"fmt"
 	"math"
 	"reflect"
+	"sort"
 	"strings"
 	"time"
 
@@ -70,6 +71,7 @@ func c01ValueKinds() ([]Finding, int) {
 	var out []Finding
 	seen := map[string]bool{}
 	n := 0
+	valueKindWhat = map[string][2]string{}
 	for twin := 0; twin < 2; twin++ {
 		for _, val := range values {
 			for _, st := range stores {
@@ -182,6 +184,9 @@ func c01ValueKinds() ([]Finding, int) {
 					} else if j := indexOf(what, " returned"); j > 0 {
 						what = what[:j] + " does not return the stored value"
 					}
+					w := valueKindWhat[val.name+" stored by "+st]
+					w[twin] = what
+					valueKindWhat[val.name+" stored by "+st] = w
 					sig := fmt.Sprintf("value kind %s stored by %s: %s", val.name, st, what)
 					if !seen[sig] {
 						seen[sig] = true
@@ -261,6 +266,27 @@ func c01ValueKinds() ([]Finding, int) {
 				seen[sig] = true
 				out = append(out, Finding{Property: "C01", Signature: sig, Detail: twinNames[twin] + ": " + problem, Replay: map[string]interface{}{"engine": "C01values"}})
 			}
+		}
+	}
+	return out, n
+}
+
+// valueKindWhat: per catalogue case, what went wrong on each twin ("" = nothing); filled by c01ValueKinds.
+var valueKindWhat map[string][2]string
+
+// c12ValueKinds: the twins behave alike on every case of the value-kind catalogue.
+func c12ValueKinds() ([]Finding, int) {
+	_, n := c01ValueKinds()
+	var out []Finding
+	var cases []string
+	for c := range valueKindWhat {
+		cases = append(cases, c)
+	}
+	sort.Strings(cases)
+	for _, c := range cases {
+		if w := valueKindWhat[c]; w[0] != w[1] {
+			out = append(out, Finding{Property: "C12", Signature: "value kind " + c + ": Cache and CacheOf[string,interface{}] behave differently",
+				Detail: fmt.Sprintf("Cache: %q; CacheOf[string,interface{}]: %q", w[0], w[1]), Replay: map[string]interface{}{"engine": "C12values"}})
 		}
 	}
 	return out, n
